@@ -84,6 +84,8 @@ func (g *gate) Read(p []byte) (int, error) {
 	case "block":
 		<-g.release
 		return 0, errGate
+	case "eof":
+		return 0, io.EOF
 	}
 	return 0, errGate
 }
@@ -135,8 +137,8 @@ func (c11) Run(c *mon.Ctx, i int) {
 		prefix, expect = vs.S[:vs.FlushEnds[pi]], d.B[:vs.PlainAt[pi]]
 	}
 	chunk := []string{"whole", "onebyte", "random"}[r.Intn(3)]
-	after := []string{"error", "garbage", "block"}[r.Intn(3)]
-	transport := []string{"plain", "plain", "bufio64", "bufio4096"}[r.Intn(4)]
+	after := []string{"error", "garbage", "block", "eof"}[r.Intn(4)]
+	transport := []string{"plain", "plain", "bufio64", "bufio4096", "bufio16"}[r.Intn(5)]
 	multistream := true
 	if wrapper == "gzip" {
 		multistream = r.Bool()
@@ -159,6 +161,8 @@ func (c11) Run(c *mon.Ctx, i int) {
 		src = bufioOf(g, 64)
 	case "bufio4096":
 		src = bufioOf(g, 4096)
+	case "bufio16":
+		src = bufioOf(g, 16)
 	}
 	needEOF := atEnd && !(wrapper == "gzip" && multistream)
 	sizes := gen.ReadSizes(gen.New(r.U64()), gen.ReadStyles[2+r.Intn(5)])
